@@ -216,6 +216,56 @@ def run(tier="quick", mktable=False):
                        name, f.params[i]["n"], X.render(n)[:80], (" via callee %s" % via) if via else ""))
         else:
             chk.ob("G1", name, "deref(%s)" % pn, True, loc=f.loc(f.body), proof="untabled; tests and never dereferences NULL")
+    # G7 the reporting path of a failed guard stays usable: a failed REQUIRE logs through libast_dprintf, which itself REQUIREs
+    # the program name - so a function of the message module that releases the name (FREE stores NULL into it) gives it a new
+    # value on every path before it returns; a name left NULL turns the next soft refusal into unbounded recursion
+    chk.rule("G7", "the program name / version the guards' diagnostics need are never left NULL by their setters")
+    from .. import flow
+    from ..facts import walk
+    mu = prog.units.get("msgs.c")
+    nset = 0
+    for f in (mu.functions.values() if mu is not None else ()):
+        if f.body is None or f.cfg is None:
+            continue
+        gl = {}
+        for x in walk(f.body):
+            if x.get("k") == "assign" and x.get("op") == "=":
+                l = X.strip(x["ch"][0])
+                if l is not None and l.get("k") == "ref" and l.get("rk") == "global" and l.get("tp") and re.match(r"libast_program_(name|version)$", l.get("n", "")):
+                    gl[l["n"]] = X.apath(l)
+        if not gl:
+            continue
+        cfg7 = nullness.prepared_cfg(f, NORETURN)
+        bad7 = []
+
+        def t7(state, n, blk):
+            if n.get("k") == "assign" and n.get("op") == "=":
+                l = X.strip(n["ch"][0])
+                if l is not None and l.get("k") == "ref" and l.get("n") in gl:
+                    st = frozenset(x for x in state if x[1] != l["n"])
+                    return st | {("null", l["n"])} if X.is_null_const(n["ch"][1]) else st
+            return state
+
+        def r7(state, cond, truth, blk):
+            if isinstance(truth, tuple):
+                return state
+            for fct in X.implied(cond, truth):
+                for nm, pth in gl.items():
+                    if fct[0] == "nn" and fct[1] == pth and ("null", nm) in state:
+                        return frozenset(x for x in state if x != ("null", nm))
+            return state
+
+        ins7 = flow.forward(cfg7, frozenset(), t7, refine=r7, join=lambda a, b: a | b)
+        nset += 1
+        end_state = ins7.get(cfg7.exit) or frozenset()
+        if end_state:
+            bad7.append((f.body, sorted(x[1] for x in end_state)))
+        chk.ob("G7", f.name, "name-not-left-null", not bad7, loc=f.loc(bad7[0][0]) if bad7 else f.loc(f.body),
+               detail="%s can return with %s released and set to NULL and no new value stored: every later failed REQUIRE logs through "
+                      "libast_dprintf(), whose own guard on that name fails and logs again - unbounded recursion instead of the soft "
+                      "refusal" % (f.name, ", ".join(bad7[0][1]) if bad7 else ""),
+               proof="every path from a release of the name to a return stores a new value")
+    chk.count("message_name_setters", nset, floor=1)
     chk.count("contract_table_entries", len(tidx))
     chk.count("contract_entries_present", present, floor=int(len(tidx) * 0.9))
     chk.count("class_tables", len(prog.class_tables()), floor=20)
